@@ -130,6 +130,13 @@ class PointsH(_Arr):
                     else [[viol(grp, i) for i in rows] for grp in P])
         if np.asarray(p.ineq_separate_points(P)).astype(bool).tolist() != want_isp:
             bad.append("ineq_separate_points")
+        # output shapes follow the input shape (obligations "shapes" / "ineq_separate_points.shape")
+        want_shapes = (P.shape[:-1], P.shape[:-1], P.shape[:-2] + (A.shape[0],))
+        got_shapes = tuple(np.asarray(f(P)).shape for f in (p.ineqs_satisfied, p.separable, p.ineq_separate_points))
+        if got_shapes != want_shapes:
+            bad.append("shapes")
+            if got_shapes[2] != want_shapes[2]:
+                bad.append("ineq_separate_points.shape")
         return bad
 
 
